@@ -140,7 +140,7 @@ Definition s_src : list N := [115;114;99].
 (* last colspan attribute wins (the loop does not break) *)
 Definition td_colspan (attrs : list (text * text)) : N :=
   fold_left (fun acc kv => if attr_is (fst kv) s_colspan
-                           then match parse_usize (snd kv) with Some n => n | None => 1 end
+                           then match parse_usize (snd kv) with Some n => N.min n 1000 | None => 1 end
                            else acc) attrs 1.
 
 (* tbody: handle colspan=0 *)
@@ -272,7 +272,7 @@ Section ProcessDom.
   Variable use_doc_css : bool.
   (* parse the inline style-ish attributes of an element into declarations
      (css parser; supplied by Api so that Dom.v does not depend on CssParse) *)
-  Variable inline_styles : list (text * text) -> res (list style).
+  Variable inline_styles : list (text * text) -> res (list styledecl).
 
   (* build the element's node from processed children; returns None for Nothing *)
   Definition build_element (name : text) (attrs : list (text * text)) (computed : cstyle)
